@@ -61,6 +61,13 @@ func concRound(seed uint64, round int, workers int) (njobs int, diffs []string) 
 				bases = append(bases, u)
 			}
 		}
+		// shared values produced by a parser that records validation errors: their error lists (1 to 9 entries, so with and
+		// without spare capacity in the slice) are part of what a clone or a resolution result must not share
+		for _, in := range []string{" http://example.com/a", " http://example.com/a b|c", "\thttp://u:p@example.com:80/a b\\c|d?q r#f g", " http:\\\\u@@h\\a b\\\tc|d e?f g#h i ", "http://example.com/a b"} {
+			if u, err := parsers[1].Parse(in); err == nil {
+				bases = append(bases, u)
+			}
+		}
 		// some shared bases already have search parameters, some do not
 		for i, u := range bases {
 			if i%3 == 0 {
@@ -155,7 +162,9 @@ func concRound(seed uint64, round int, workers int) (njobs int, diffs []string) 
 			} else {
 				v = b.Clone()
 			}
-			// the owner's own operations: removals first (they edit in place), then values, then the parameter list
+			// the owner's own operations: first one that records a validation error when the value's parser records them,
+			// then removals (they edit in place), then values, then the parameter list
+			v.SetHash("own frag")
 			v.SetHash("")
 			v.SetSearch("")
 			v.SetUsername("")
